@@ -29,6 +29,13 @@ CLAIMED = {
              'obligations plus a fixed-width lemma, and is cross-checked on symbolic template pairs.',
         note='Assumes the symbolic matcher / string / formatting proxies agree with CPython (validated per path on a solver witness); float(text) of digits modelled as correctly '
              'rounded rational (reals-with-rounding), so int(1000*qty) is only proved up to that abstraction. Bounds in evidence.'),
+    'C17': dict(
+        category='model_checking', design_ref='DESIGN.md section 3 C17',
+        technique='symbolic execution of the real implement-weight functions on symbolic age-group labels (digit-cell renderings of symbolic integers, free cells); z3 path conditions; table keys via real re and the z3 regex language',
+        text='Bounded symbolic checking: the age-group label is symbolic (every U-label 9..23, every masters band V35..V130 in fives in two- and three-digit '
+             'renderings, free labels of up to 4 cells), the library\'s own string comparisons fork on the cells, and each clause is decided on every path; '
+             'monotonicity is a two-label path exploration. Table keys are a finite set checked exhaustively.',
+        note='Assumes the string / formatting proxies agree with CPython (validated per path on a solver witness against the plain library). Bounds in evidence.'),
 }
 
 NOT_APPLICABLE = {
